@@ -334,6 +334,52 @@ def float_lines(case):
     return lines
 
 
+
+# ------------------------------------------------------------------------------ large batches
+
+
+def big_cases():
+    out = []
+    for cost in ("l2", "gvar", "gcov"):
+        for mode in ("optim", "fixed"):
+            for rows in ((4096, 4097) if cost == "gcov" else (4095, 4096, 4097, 8192, 9001)):
+                out.append({"cost": cost, "mode": mode, "rows": rows, "p": 2, "n": 150})
+    return out
+
+
+def impl_big(c):
+    """one evaluate call with thousands of rows (around typical chunk sizes) against the same rows one by one"""
+    g = np.random.default_rng(c["rows"])
+    n, p = c["n"], c["p"]
+    X = g.normal(size=(n, p)) * 2.0 + 1.0
+    case = {"cost": c["cost"], "mode": c["mode"], "param": None, "form": "float"}
+    if c["mode"] == "fixed":
+        case["param"] = {"l2": [0.5, -1.0], "gvar": [[0.5, -1.0], [2.0, 0.5]], "gcov": [[0.5, -1.0], [[2.0, 0.3], [0.3, 1.0]]]}[c["cost"]]
+    try:
+        sc = mk_cost(case).fit(X)
+        ms = int(sc.min_size)
+        s = g.integers(0, n - ms, size=c["rows"])
+        e = np.minimum(n, s + ms + g.integers(0, n, size=c["rows"]))
+        cuts = np.column_stack((s, e))
+        cuts[0], cuts[-1] = (0, n), (n - ms, n)  # the first and the last row are at the ends of the data
+        vals = sc.evaluate(cuts)
+        idx = sorted(set([0, 1, c["rows"] // 2, 4094, 4095, 4096, 4097, 8191, c["rows"] - 2, c["rows"] - 1]) & set(range(c["rows"])))
+        idx += [int(v) for v in g.integers(0, c["rows"], size=12)]
+        bad = [int(i) for i in idx if not np.array_equal(vals[i], sc.evaluate(cuts[i:i + 1])[0])]
+        return {"outcome": "ok", "shape": list(vals.shape), "bad": bad[:3], "finite": bool(np.isfinite(vals).all())}
+    except Exception as ex:
+        return {"outcome": "other:" + type(ex).__name__, "msg": str(ex)[:200]}
+
+
+def oracle_big(c, r):
+    if r["outcome"] != "ok":
+        return f"{c['cost']} {c['mode']}: a batch of {c['rows']} admissible intervals raised {r['outcome']} {r.get('msg', '')}"
+    if r["shape"][0] != c["rows"]:
+        return f"{c['cost']} {c['mode']}: {r['shape'][0]} rows returned for {c['rows']} intervals"
+    if r["bad"]:
+        return f"{c['cost']} {c['mode']}: rows {r['bad']} of a batch of {c['rows']} intervals differ from the same intervals evaluated one by one"
+    return None
+
 # ------------------------------------------------------------------------------------ the check
 
 
@@ -367,6 +413,7 @@ def run(chk: core.Check):
     chk.run_stream("direct", core.Gen(gen_case, rng, nmax, N), impl, oracle=oracle, site="Cost.evaluate",
                    nontrivial=lambda c, r: r.get("outcome") == "ok" and len(r["vals"]) >= 3,
                    describe=lambda c: {k: v for k, v in c.items() if k != "X"} | {"X[:3]": c["X"][:3]})
+    chk.run_stream("big-batch", big_cases(), impl_big, oracle=oracle_big, site="Cost.evaluate/batch")
     # translator validation
     rng = core.rng_for(chk.seed, "C01/float")
     fc = float_cases(rng, N, status)
